@@ -280,7 +280,7 @@ def run_shards(mod, shards, nproc=NPROC):
 
     def spawn():
         a, b = ctx.Pipe()
-        p = ctx.Process(target=_worker, args=(b,), daemon=True)
+        p = ctx.Process(target=_worker, args=(b,), daemon=False)  # checks may start pools of their own
         p.start()
         b.close()
         workers[a] = [p, None, 0.0]
